@@ -101,7 +101,7 @@ theorem cause_mapping (ce : CloseError) (e : Err) (h : ce.err = some e) :
 /-- After the fan-out of `handleCloseError` (`streamsMap.CloseWithError` + `datagramQueue.CloseWithError`),
     for every history `pre` of calls / wake-ups / arrivals before it:
     (a) every pending Read, Write, AcceptStream, OpenStreamSync, ReceiveDatagram, SendDatagram entry is woken;
-    (b) its wake step returns the cause (the stream / accept / open calls always; the datagram calls as soon as
+    (b) its wake step returns the cause (all calls but ReceiveDatagram always; ReceiveDatagram as soon as
         nothing is queued);
     (c) after any further history `post`, every new call returns the cause immediately (same proviso). -/
 theorem all_unblocked_same_cause (s : Sys) (pre : List Step) (c : Cause)
@@ -129,26 +129,17 @@ theorem all_unblocked_same_cause (s : Sys) (pre : List Step) (c : Cause)
   · intro post id k i hi hk
     exact (call_closed _ c (closedWith_run s1 c hclosed post) id k i hi hk).1
 
-/-- A datagram call on the closed queue returns a datagram queued before the close (one fewer remains) or the
+/-- A ReceiveDatagram call on the closed queue returns a datagram queued before the close (one fewer remains) or the
     cause: at most `avail` calls succeed. -/
 theorem datagram_calls_drain (k : CallKind) (r : Res) (c : Cause) (h : r.closeErr = some c) :
     (attempt k r).2 = .err c ∨ ((attempt k r).2 = .ok ∧ (attempt k r).1.avail + 1 = r.avail) :=
   attempt_closed_datagram k r c h
 
-/-- FULL statement for the datagram send path: a later SendDatagram returns the cause. It is FALSE of the code:
-    `datagramQueue.Add` looks at the queue length before the closed channel (known finding
-    C17-senddatagram-after-close). -/
-def later_send_datagram_returns_cause_full : Prop :=
-  ∀ (r : Res) (c : Cause), r.closeErr = some c → (attempt .sendDatagram r).2 = .err c
-
-theorem later_send_datagram_returns_cause_partial (r : Res) (c : Cause) (h : r.closeErr = some c) (hfull : r.avail = 0) :
+/-- A later SendDatagram returns the cause whatever the state of the send queue (`datagramQueue.Add` looks at
+    the closed channel before the queue length). -/
+theorem later_send_datagram_returns_cause (r : Res) (c : Cause) (h : r.closeErr = some c) :
     (attempt .sendDatagram r).2 = .err c := by
-  simp [attempt, CallKind.errFirst, h, hfull]
-
-theorem later_send_datagram_returns_cause_witness : ¬ later_send_datagram_returns_cause_full := by
-  intro h
-  have := h { closeErr := some .appZero, avail := 1 } .appZero rfl
-  simp [attempt, CallKind.errFirst] at this
+  simp [attempt, CallKind.errFirst, h]
 
 example : ((({ res := [{}, {}] } : Sys).run [.call 1 .read 0, .call 2 .receiveDatagram 1, .fanout .appZero]).1.waiters.length) = 2 := by decide
 
